@@ -120,7 +120,9 @@ Definition line_kind (legacy : bool) (raw : text) : lkind :=
   | 59%N :: _ => KSkip
   | _ =>
     match line_fields raw with
-    | [] => KSkip
+    | [] => (* blank - nothing but white space in front of the remark - or not: a line of commas is not a blank line, it
+               bears something the reader has to turn into an instruction or refuse *)
+            match fields (before_semicolon (lower raw)) with [] => KSkip | _ => KInstr end
     | [w] => if text_eqb w (s2t "end") then KEnd else if text_eqb w (s2t "org") then KDirective else KInstr
     | [w; _] => if text_eqb w (s2t "end") then (if legacy then KEnd else KDirective)
                 else if text_eqb w (s2t "org") then KDirective else KInstr
